@@ -189,6 +189,19 @@ def table_cases(name, tier):
             (A("platform_system", "==", 'Li"nux'), A("platform_system", "==", "Windows")),
             (A("platform_system", "==", "Windows"), A("platform_system", "in", 'Li"nux Darwin')),
         ]
+        # two alternatives that share an atom and are each unsatisfiable in a way the pairwise algebra cannot see
+        # (== against not in), plus a third one: the empty marker only appears while the union is being normalised
+        for c, u1, u2 in (
+            (A("os_name", "not in", "nt posix"), A("os_name", "==", "nt"), A("os_name", "==", "posix")),
+            (A("sys_platform", "not in", "linux win32"), A("sys_platform", "==", "linux"), A("sys_platform", "==", "win32")),
+        ):
+            for i in range(0, len(W), 1 if tier != "quick" else 3):
+                z = W[i]
+                if z["var"] == c["var"]:
+                    continue
+                t3 = ["or", [["and", [["atom", c], ["atom", u1]]], ["and", [["atom", c], ["atom", u2]]], ["atom", z]]]
+                yield {"a": ["parse", t3], "b": ["empty"], "names": [z["var"]]}
+                yield {"a": ["or", ["and", P(c), P(u1)], ["and", P(c), P(u2)]], "b": P(z), "names": [z["var"]]}
         for (x1, x2), i in itertools.product(xs, range(len(W))):
             p = W[i]
             if p["var"] == x1["var"]:
